@@ -920,8 +920,20 @@ func (p *Pratt) Expression(env *Zlisp, rbp int) (ret Sexp, err error) {
 	//	Q("top of Expression, rbp = %v, cnode is nil", rbp)
 	//}
 	if p.IsEOF() {
-		//Q("Expression sees IsEOF, returning cnode = %v", cnode.SexpString(nil))
-		return cnode, nil
+		// Nothing is left where an operand is expected: {k = }. (The
+		// token returned here used to be the stale last one - the
+		// operator itself became its own operand, and {for k = {}}
+		// never finished parsing.)
+		// A closing ';' or ',' is fine: nothing has to follow it.
+		switch last := cnode.(type) {
+		case *SexpSemicolon, *SexpComma:
+			return cnode, nil
+		case *SexpSymbol:
+			if last.name == ";" || last.name == "," {
+				return cnode, nil
+			}
+		}
+		return SexpNull, fmt.Errorf("infix expression ends where an operand is expected")
 	}
 	p.CnodeStack = append([]Sexp{p.NextToken}, p.CnodeStack...)
 	//p.ShowCnodeStack()
